@@ -714,4 +714,73 @@ def specText (fl : Str) (w : WSpec) (p : PSpec) (c : Char) : Str := fl ++ w.text
 /-- how ISO C reads that specification (`*` arguments substituted) -/
 def cspec (fl : Str) (w : WSpec) (p : PSpec) (c : Char) : CSpec.Spec := CSpec.resolve (flagsOf fl) w.val p.val c
 
+/-! ## val.c: the text of a number and its delivery (`hawk_rtx_valtostr`: val_int_to_str, val_flt_to_str, str_to_str) -/
+
+/-- the five output kinds of `hawk_rtx_valtostr` -/
+inductive OutKind where
+  | cpl | cplcpy | cpldup | strp | strpcat
+deriving Repr, DecidableEq
+
+/-- what the caller gets: the text found through `out` (for `strpcat`: the whole string buffer), or the failure HAWK_EINVAL
+together with the length stored into `out->u.cplcpy.len` if one is stored -/
+inductive VRes where
+  | ok (text : Str)
+  | einval (need : Option Nat)
+deriving Repr, DecidableEq
+
+/-- `while (t > 0) { rlen++; t /= 10; }` -/
+def countDigits (t : Nat) : Nat :=
+  if _h : t > 0 then countDigits (t / 10) + 1 else 0
+termination_by t
+decreasing_by exact Nat.div_lt_self (by omega) (by omega)
+
+/-- the length pass of val_int_to_str: `rlen` -/
+def intRlen (v : Int) : Nat :=
+  if v = 0 then 1 else (if v < 0 then 1 else 0) + countDigits v.natAbs
+
+/-- the fill pass of val_int_to_str over the `rlen` cells reserved for the number (blank before the pass, as
+`hawk_ooecs_nccat(…, ' ', rlen)` leaves them): the digits are written from the last cell backwards, then the sign -/
+def intCells (v : Int) (rlen : Nat) : Str :=
+  if v = 0 then '0' :: List.replicate (rlen - 1) ' '
+  else
+    let body := (if v < 0 then ['-'] else []) ++ (revDigits 10 false v.natAbs).reverse
+    List.replicate (rlen - body.length) ' ' ++ body
+
+/-- val_int_to_str -/
+def valIntToStr (v : Int) (kind : OutKind) (buflen : Nat) (pre : Str) : VRes :=
+  let rlen := intRlen v
+  match kind with
+  | .cpl | .cplcpy =>
+    -- `if (rlen >= out->u.cplcpy.len) { …; out->u.cplcpy.len = rlen + 1; return -1; }`
+    if rlen ≥ buflen then .einval (some (rlen + 1)) else .ok (intCells v rlen)
+  | .cpldup => .ok (intCells v rlen)
+  | .strp => .ok (intCells v rlen)               -- the string buffer is cleared first
+  | .strpcat => .ok (pre ++ intCells v rlen)     -- appended at the insertion point remembered before the buffer was extended
+
+/-- val_flt_to_str: the format it hands to hawk_rtx_format (`HAWK_RTX_VALTOSTR_PRINT` selects OFMT) … -/
+def valFltFormat (print : Bool) (convfmt ofmt : Str) : Str := if print then ofmt else convfmt
+
+/-- … the formatting itself (`nargs_on_stack = -1`: `cfg.valMode`, the number is the only argument) … -/
+def valFltPieces (tmpLen : Nat) (print : Bool) (convfmt ofmt : Str) (a : Arg) : Except Err (List Piece) :=
+  format { tmpLen := tmpLen, valMode := true } (valFltFormat print convfmt ofmt) [a]
+
+/-- … and the delivery of the resulting text `t` (of length `tmp_len`) -/
+def deliverFlt (t : Str) (kind : OutKind) (buflen : Nat) (pre : Str) : VRes :=
+  match kind with
+  | .cpl | .cplcpy =>
+    -- `if (out->u.cplcpy.len <= tmp_len) { …; out->u.cplcpy.len = tmp_len + 1; goto oops; }`
+    if buflen ≤ t.length then .einval (some (t.length + 1)) else .ok t
+  | .cpldup => .ok t
+  | .strp => .ok t
+  | .strpcat => .ok (pre ++ t)
+
+/-- str_to_str (strings, characters, nil) -/
+def strToStr (s : Str) (kind : OutKind) (buflen : Nat) (pre : Str) : VRes :=
+  match kind with
+  | .cpl => .ok s                                  -- the pointer to the characters themselves
+  | .cplcpy => if s.length ≥ buflen then .einval none else .ok s
+  | .cpldup => .ok s
+  | .strp => .ok s
+  | .strpcat => .ok (pre ++ s)
+
 end Hawk.Fmt
